@@ -163,6 +163,8 @@ def run_case(case):
             reset_at = None
         for n_, (kind, v) in enumerate(items):
             if reset_at is not None and n_ == reset_at:
+                b.to_string()          # the first payload is taken out (and used) before the builder is re-used
+                b.build()
                 b.reset()
             if n_ in peek and n_ > 0:
                 labels.append('peek')
